@@ -152,11 +152,12 @@ def spec_birthdeath():
          "internal_heights": P("heights", [1.0, 2.0, 3.0], HEIGHTS)},
         {"id": "bdsk", "type": "BDSKModel", "tree_model": "tree", "R": P("R", [1.5, 2.0]),
          "delta": P("delta", [1.0, 1.2]), "s": P("s", [0.3, 0.4], UNIT), "rho": P("rho", [0.5], UNIT),
-         "origin": P("origin", [6.0], dom="origin")},
+         "origin": P("origin", [20.0], dom="origin")},
         {"id": "bd", "type": "BirthDeathModel", "tree_model": "tree", "lambda": P("bd_lambda", [2.0]),
          "mu": P("bd_mu", [1.0]), "psi": P("bd_psi", [0.5]), "rho": P("bd_rho", [0.5], UNIT),
          "origin": "origin"},
-        joint("joint", ["bdsk", "bd"]),
+        joint("joint", ["bdsk"]),
+        joint("joint_bd", ["bd", "bdsk"]),
     ])
 
 
@@ -206,8 +207,10 @@ def spec_general():
          "substitution_model": "gjc", "site_pattern": "patterns", "branch_model": "clock"},
         {"id": "like_jc", "type": "TreeLikelihoodModel", "tree_model": "tree", "site_model": "site",
          "substitution_model": "jc", "site_pattern": "patterns", "branch_model": "clock", "use_tip_states": True},
+        {"id": "poisson", "type": "PoissonTreeLikelihood", "tree_model": "tree", "branch_model": "clock",
+         "edge_lengths": P("edges", [1, 2, 0, 3, 1, 2], "counts")},
         dist("prior_rates", "LogNormal", "rates", {"loc": P("r_loc", [-4.0], REAL), "scale": P("r_scale", [0.5])}),
-        joint("joint", ["like_sym", "like_nonsym", "like_gjc", "like_jc", "prior_rates"]),
+        joint("joint", ["like_sym", "like_nonsym", "like_gjc", "like_jc", "poisson", "prior_rates"]),
     ])
 
 
@@ -234,9 +237,13 @@ def spec_distributions():
         dist("normal_affine", "Normal", "affine", {"loc": P("a_loc", [0.0], REAL), "scale": P("a_scale", [3.0])}),
         {"id": "detnorm", "type": "DeterministicNormal", "x": P("dn_x", [0.1, 0.2], REAL), "shape": [],
          "loc": P("dn_loc", [0.0, 0.0], REAL), "scale": P("dn_scale", [1.0, 1.0])},
-        {"id": "gmrfcov", "type": "GMRF", "x": "y2", "precision": "g_rate"},
+        {"id": "gmrf_y", "type": "GMRF", "x": "y2", "precision": "g_rate"},
+        {"id": "gmrfcov", "type": "GMRFCovariate", "field": P("cov_field", [1.0, 2.0, 3.0], REAL),
+         "precision": P("cov_prec", [0.5]), "covariates": P("cov_z", [[1.0, 2.0], [3.0, 4.0], [5.0, 6.0]], REAL),
+         "beta": P("cov_beta", [0.1, -0.1], REAL)},
+        {"id": "gmrfint", "type": "GMRFGammaIntegrated", "x": "cov_field", "shape": 1.5, "rate": 2.0},
         joint("joint", ["mvn", "bridge", "bridge2", "mix", "normal_cat", "gamma_on_cat", "cat_exp",
-                        "normal_affine", "affine", "detnorm", "gmrfcov"]),
+                        "normal_affine", "affine", "detnorm", "gmrf_y", "gmrfcov", "gmrfint"]),
     ])
 
 
@@ -499,6 +506,7 @@ def extract(spec, table, cls_names, flag_names):
     tr = Tracer(objs, table)
     obs = {}
     dropped = []
+    dropped_ids = []
 
     def force_dirty():
         for o in objs:
@@ -514,7 +522,7 @@ def extract(spec, table, cls_names, flag_names):
                     tr.run(th)
                 obs[(id(o), sname)] = th
             except Exception as e:                      # not evaluable on this tree (e.g. C09 defect)
-                dropped.append((obj_name(o, names), sname, f"{type(e).__name__}: {e}"[:160]))
+                dropped_ids.append((id(o), sname, f"{type(e).__name__}: {e}"))
                 obs[(id(o), sname)] = th
     # -- slots
     slots = []
@@ -539,6 +547,24 @@ def extract(spec, table, cls_names, flag_names):
     for a, b in tr.edges:
         if a not in deps[b]:
             deps[b].append(a)
+    # -- a cached slot whose recomputation could not be traced (it raises on this tree): assume it reads
+    #    everything its object registered (every parameter's value, every cached slot of every sub-model)
+    conservative = []
+    byid0 = {id(o): o for o in objs}
+    for (oid, sname), why in [((i, sn), w) for (i, sn, w) in dropped_ids]:
+        s = (oid, sname)
+        if deps.get(s):
+            continue
+        o = byid0[oid]
+        extra = []
+        for d in (getattr(o, "_parameters", {}), getattr(o, "_models", {})):
+            for sub in d.values():
+                for s2 in slots:
+                    if s2[0] == id(sub) and s2 != s and (s2[1] == "leaf" or s2[1].startswith("f:")
+                                                         or s2[1] == "m:tensor") and s2 not in extra:
+                        extra.append(s2)
+        deps[s] = extra
+        conservative.append(s)
     # -- topological numbering of slots (reads first) and objects (targets / notifiers first)
     def toposort(nodes, preds, what):
         order, state = [], {}
@@ -572,7 +598,10 @@ def extract(spec, table, cls_names, flag_names):
     W.spec, W.table, W.flag_names, W.cls_names = spec, table, flag_names, cls_names
     W.obj_ids = obj_order
     W.oindex = {i: k for k, i in enumerate(obj_order)}
-    W.obj_names = [obj_name(byid[i], names) for i in obj_order]
+    W.locators = [locate(byid[i], dic, names) for i in obj_order]
+    W.obj_names = [path_name(p) for p in W.locators]
+    if len(set(W.obj_names)) != len(W.obj_names):
+        raise ExtractError("object names are not unique")
     W.obj_class = [qn(byid[i]) for i in obj_order]
     W.obj_kind = [kind_of(byid[i]) for i in obj_order]
     W.listeners = [[W.oindex[l] for l in lst[i]] for i in obj_order]
@@ -584,12 +613,19 @@ def extract(spec, table, cls_names, flag_names):
     W.slot_deps = [[W.sindex[d] for d in deps[s]] for s in slot_order]
     W.slot_flag = [(flag_names.index(s[1][2:]) if s[1].startswith("f:") else None) for s in slot_order]
     W.observable = [s in obs for s in slot_order]
-    W.dropped = dropped
+    W.unevaluable = {W.sindex[(i, sn)] for (i, sn, _) in dropped_ids}
+    W.conservative = [W.sindex[s] for s in conservative]
+    W.base_values = {k: dic[k].tensor.detach().tolist() for k, v in dic.items() if kind_of(v) == "KLeaf"}
     W.leaf_ids = sorted(k for k, v in dic.items() if kind_of(v) == "KLeaf")
     W.domains = leaf_domains(spec["objects"])
-    # paths from the registry to every object / observation, usable on any other copy of the instance
-    W.locators = [locate(byid[i], dic, names) for i in obj_order]
+    nm = {i: W.obj_names[W.oindex[i]] for i in obj_order}
+    W.dropped = [(nm[i], sn, f"{w}"[:160]) for (i, sn, w) in dropped_ids]
     return W, dic
+
+
+def path_name(path):
+    """registry id, or for anonymous objects the path from the registry: 'tree/_internal_heights'"""
+    return "/".join([path[0]] + [str(k) if kind != "target" else f"[{k}]" for kind, k in path[1:]])
 
 
 def locate(o, dic, names):
@@ -640,33 +676,6 @@ def coq_graph(W):
         f"{'true' if W.slot_name[k] == 'leaf' else 'false'} {C.coq_list(W.slot_deps[k], C.natlit)}"
         for k in range(len(W.slots)))
     return f"(mkGraph cls_table [{objs}]%nat [{slots}]%nat)"
-
-
-def conservative_deps(W, dic_objs, table):
-    """For a cached slot whose recomputation could not be traced (it raises on this tree) assume it reads
-    everything its object registered: every parameter's tensor slot and every cached / observed slot of
-    every registered sub-model.  Returns the list of (slot index, added deps)."""
-    added = []
-    traced_fail = {(n, s) for n, s, _ in W.dropped}
-    for k, (oid, sname) in enumerate(W.slots):
-        o = dic_objs[oid]
-        if (W.obj_names[W.oindex[oid]], sname) not in traced_fail or W.slot_deps[k]:
-            continue
-        extra = []
-        for d in (getattr(o, "_parameters", {}), getattr(o, "_models", {})):
-            for sub in d.values():
-                j = W.oindex.get(id(sub))
-                if j is None:
-                    continue
-                for k2 in range(len(W.slots)):
-                    if W.slot_owner[k2] == j and k2 < k and (W.slot_name[k2] == "leaf" or W.slot_flag[k2] is not None
-                                                             or W.slot_name[k2] == "m:tensor"):
-                        if k2 not in extra:
-                            extra.append(k2)
-        if extra:
-            W.slot_deps[k] = extra
-            added.append((k, extra))
-    return added
 
 
 # =============================================================================================
@@ -849,6 +858,8 @@ class Real:
                 return x / x.sum(-1, keepdim=True)
             if dom in (HEIGHTS, GRID, "root", "origin"):
                 return b * (1.0 + rng.uniform(0.0, 1.0))
+            if dom == "counts":
+                return torch.tensor([rng.randrange(0, 6) for _ in range(cur.numel())], dtype=cur.dtype).reshape(cur.shape)
             if dom == "spd":
                 return b + rng.uniform(0.0, 1.0) * torch.eye(b.shape[-1], dtype=cur.dtype)
             if dom == "kf":
@@ -934,11 +945,20 @@ def gen_history(W, rng, length, real):
     size the values."""
     from torchtree.distributions.distributions import DistributionModel
     n = len(W.obj_ids)
-    params = [i for i in range(n) if W.obj_kind[i] != "KOther"]
+    named = set(W.leaf_ids)
+
+    def under(i):
+        if W.obj_kind[i] == "KLeaf":
+            return [i]
+        return [l for t in W.targets[i] for l in under(t)]
+    # only leaves that the registry knows by id can be given to a freshly built copy
+    params = [i for i in range(n) if W.obj_kind[i] != "KOther"
+              and all(W.obj_names[l] in named for l in under(i))]
     leaves = [i for i in params if W.obj_kind[i] == "KLeaf"]
     composite = [i for i in params if W.obj_kind[i] != "KLeaf"]
+    ridx = {id(o): i for i, o in enumerate(real.objs)}
     samplers = [i for i in range(n) if isinstance(real.objs[i], DistributionModel)
-                and hasattr(real.objs[i], "x") and id(real.objs[i].x) in W.oindex
+                and hasattr(real.objs[i], "x") and ridx.get(id(real.objs[i].x)) in params
                 and short(W.obj_class[i]) != "JointDistributionModel"]
     evaluable = [k for k in range(len(W.slots)) if W.observable[k] and k not in W.unevaluable]
     cached = [k for k in evaluable if W.slot_flag[k] is not None]
@@ -962,7 +982,7 @@ def gen_history(W, rng, length, real):
             ops.append(dict(op="set", obj=i, value=real.gen_value(i, rng, base).tolist()))
         elif r < 0.55 and samplers:
             i = rng.choice(samplers)
-            ops.append(dict(op="sample", obj=i, x=W.oindex[id(real.objs[i].x)], seed=rng.randrange(10 ** 6)))
+            ops.append(dict(op="sample", obj=i, x=ridx[id(real.objs[i].x)], seed=rng.randrange(10 ** 6)))
         elif r < 0.65:
             i = rng.choice(leaves)
             ops.append(dict(op="inplace", obj=i, value=real.gen_value(i, rng, base).tolist()))
@@ -1045,3 +1065,610 @@ def parse_trace(W, ops, z):
             out.append(dict(kind="fuel"))
             break
     return out
+
+
+# =============================================================================================
+# 6. The check
+# =============================================================================================
+
+def sync():
+    try:
+        txt, table, names, fl = t7_handlers.translate()
+    except t7_handlers.TranslateError as e:
+        return False, f"T7 translator: {e}"
+    with C.CoqLock():
+        C.write_if_changed(os.path.join(C.COQ, "gen", "G_handlers.v"), txt)
+    return True, (txt, table, names, fl)
+
+
+def runtime_crosscheck(table):
+    """The translator resolves handlers through its own C3 linearisation of the ast; compare with the
+    classes Python actually built (owner of each handler, parameter/model kind)."""
+    import importlib
+    from torchtree.core.abstractparameter import AbstractParameter
+    from torchtree.core.model import Model
+    bad = []
+    n = 0
+    for q, ent in table.items():
+        mod, cn = q.split(":")
+        try:
+            cls = getattr(importlib.import_module(mod), cn)
+        except Exception:
+            continue
+        n += 1
+        for key, h in (("hp_owner", "handle_parameter_changed"), ("hm_owner", "handle_model_changed")):
+            owner = next((k for k in cls.__mro__ if h in k.__dict__), None)
+            got = f"{owner.__module__}:{owner.__name__}" if owner else "missing"
+            if got != ent[key]:
+                bad.append(f"{q}.{h}: translator says {ent[key]}, runtime {got}")
+        if ent["is_param"] != (issubclass(cls, AbstractParameter) and cls is not AbstractParameter) or \
+                ent["is_model"] != issubclass(cls, Model):
+            bad.append(f"{q}: kind differs (translator param={ent['is_param']} model={ent['is_model']})")
+    return bad, n
+
+
+def decode_diag(W, z):
+    """M_listen.diag output -> list of dicts"""
+    out, i = [], 0
+    while i < len(z):
+        t = z[i]
+        if t == 1:
+            out.append(dict(kind="raise", obj=z[i + 1], who=z[i + 2]))
+            i += 3
+        elif t == 2:
+            out.append(dict(kind="uncovered", leaf=z[i + 1], slot=z[i + 2]))
+            i += 3
+        elif t in (3, 4, 7):
+            out.append(dict(kind={3: "plan-leaves", 4: "plan-not-notified", 7: "fuel"}[t], obj=z[i + 1]))
+            i += 2
+        else:
+            out.append(dict(kind={5: "not-topological", 6: "flag-shared"}.get(t, f"code{t}")))
+            i += 1
+    return out
+
+
+def init_flags(W, real):
+    fl = real.flags()
+    cached = [k for k in range(len(W.slots)) if W.slot_flag[k] is not None]
+    return [(W.slot_owner[k], W.slot_flag[k]) for k, b in zip(cached, fl) if b]
+
+
+def coq_header(Ws, d0s):
+    h = HEADER
+    for i, (W, d0) in enumerate(zip(Ws, d0s)):
+        h += f"Definition g{i} : graph := {coq_graph(W)}.\n"
+        h += f"Definition d{i} : list flagid := {C.coq_list(d0, lambda x: f'({x[0]}%nat, {x[1]}%nat)')}.\n"
+    return h
+
+
+PRETTY = {"f:lp_needs_update": "()", "f:heights_need_update": ".node_heights",
+          "f:branch_lengths_need_update": ".branch_lengths()", "f:needs_update": ".rates()/.probabilities()",
+          "f:need_update": ".tensor", "f:_need_update": ".tensor", "leaf": ".tensor", "m:tensor": ".tensor"}
+
+
+def slot_label(W, k):
+    sn = W.slot_name[k]
+    return W.obj_names[W.slot_owner[k]] + (PRETTY.get(sn) or "." + sn.split(":")[-1] + "()")
+
+
+def value_for(W, real, i, rng):
+    return real.gen_value(i, rng, W.base_values).tolist()
+
+
+def updatable(W):
+    named = set(W.leaf_ids)
+
+    def under(i):
+        if W.obj_kind[i] == "KLeaf":
+            return [i]
+        return [l for t in W.targets[i] for l in under(t)]
+    return [i for i in range(len(W.obj_ids)) if W.obj_kind[i] != "KOther" and under(i)
+            and all(W.obj_names[l] in named for l in under(i))], under
+
+
+def export_ops(W, ops):
+    """history with objects / slots by name (stable across runs and across edits of the repository)"""
+    out = []
+    for o in ops:
+        d = dict(o)
+        if "obj" in d:
+            d["obj"] = W.obj_names[d["obj"]]
+        if "x" in d:
+            d["x"] = W.obj_names[d["x"]]
+        if "slot" in d:
+            d["slot"] = [W.obj_names[W.slot_owner[d["slot"]]], W.slot_name[d["slot"]]]
+        out.append(d)
+    return out
+
+
+def import_ops(W, ops):
+    out = []
+    for o in ops:
+        d = dict(o)
+        if "obj" in d:
+            d["obj"] = W.obj_names.index(d["obj"])
+        if "x" in d:
+            d["x"] = W.obj_names.index(d["x"])
+        if "slot" in d:
+            oi = W.obj_names.index(d["slot"][0])
+            d["slot"] = next(k for k in range(len(W.slots)) if W.slot_owner[k] == oi and W.slot_name[k] == d["slot"][1])
+        out.append(d)
+    return out
+
+
+def replay_dict(W, ops, **kw):
+    d = dict(spec=W.spec["name"], history=export_ops(W, ops), readable=describe_ops(W, ops))
+    d.update(kw)
+    return d
+
+
+def describe_ops(W, ops):
+    out = []
+    for o in ops:
+        if o["op"] == "eval":
+            out.append(f"eval {slot_label(W, o['slot'])}")
+        else:
+            out.append(f"{o['op']} {W.obj_names[o['obj']]}")
+    return out
+
+
+def notification_probe(W, ops, target_obj):
+    """Run the updates of `ops` on a new copy with a probe listener registered (public
+    add_model_listener / add_parameter_listener) on target_obj; -> number of notifications received."""
+    from torchtree.core.parametric import ModelListener, ParameterListener
+    real = Real(W)
+    hits = []
+
+    class Probe(ModelListener, ParameterListener):
+        def handle_model_changed(self, model, obj, index):
+            hits.append("m")
+
+        def handle_parameter_changed(self, variable, index, event):
+            hits.append("p")
+    o = real.objs[target_obj]
+    if W.table[W.obj_class[target_obj]]["is_param"]:
+        o.add_parameter_listener(Probe())
+    else:
+        o.add_model_listener(Probe())
+    for op in ops:
+        if op["op"] != "eval":
+            r = real.apply(op)
+            if r is not None:
+                return None
+    return len(hits)
+
+
+def first_problem(W, ops, recs):
+    """First stale evaluation / raising update of an executed history -> (index, kind) | None"""
+    for j, r in enumerate(recs):
+        if r["kind"] == "raise":
+            return j, "raise"
+        if r["kind"] == "eval" and r["stale"]:
+            return j, "stale"
+    return None
+
+
+def last_update_before(ops, j):
+    for i in range(j, -1, -1):
+        if ops[i]["op"] != "eval":
+            return i
+    return None
+
+
+def attribute(W, ops, recs, j, kind):
+    """Stable key + one-line description for a problem observed on the implementation."""
+    if kind == "raise":
+        op = ops[j]
+        tgt = op.get("x", op["obj"]) if op["op"] == "sample" else op["obj"]
+        _, under = updatable(W)
+        for l in (under(tgt) or [tgt]):
+            _, _, who = cascade(W, l)
+            if who is not None:
+                ent = W.table[W.obj_class[who]]
+                e = "EvP" if any(s[0] == "HRaise" for s in ent["hp"]) else "EvM"
+                why = next((s[1] for s in ent["hp" if e == "EvP" else "hm"] if s[0] == "HRaise"), "")
+                return (f"C11:{short(W.obj_class[who])}.{hname(e)}:raises",
+                        f"updating parameter '{W.obj_names[l]}' raises {recs[j]['exc']} in "
+                        f"{short(W.obj_class[who])}.{hname(e)} ({why}): {recs[j].get('msg', '')}")
+        return (f"C11:update-raises:{short(W.obj_class[tgt])}:{recs[j]['exc']}",
+                f"updating '{W.obj_names[tgt]}' ({op['op']}) raises {recs[j]['exc']}: {recs[j].get('msg', '')}")
+    k = ops[j]["slot"]
+    # leaves changed since slot k was last evaluated
+    changed = []
+    _, under = updatable(W)
+    for i in range(j - 1, -1, -1):
+        if ops[i]["op"] == "eval":
+            if ops[i]["slot"] == k:
+                break
+            continue
+        tgt = ops[i].get("x", ops[i]["obj"]) if ops[i]["op"] == "sample" else ops[i]["obj"]
+        if ops[i]["op"] != "fire":
+            changed += [l for l in under(tgt) if l not in changed]
+    rs = reads_set(W, k)
+    for l in changed:
+        pslot = next(s for s in range(len(W.slots)) if W.slot_owner[s] == l and W.slot_name[s] == "leaf")
+        if pslot not in rs:
+            continue
+        marked, _, _ = cascade(W, l)
+        # an unmarked cached slot between l and k ?
+        for m in sorted(rs):
+            if W.slot_flag[m] is not None and pslot in reads_set(W, m) and \
+                    (W.slot_owner[m], W.flag_names[W.slot_flag[m]]) not in marked:
+                key, m2, _ = root_cause(W, l, m)
+                return (f"C11:{key}",
+                        f"{slot_label(W, k)} is stale after parameter '{W.obj_names[l]}' changed: "
+                        f"{key.split(':')[0]} leaves the cache of {slot_label(W, m2)} clean "
+                        f"(got {recs[j]['detail']['got']}, freshly built copy {recs[j]['detail']['fresh']})")
+    return (f"C11:stale-unexplained:{short(W.obj_class[W.slot_owner[k]])}.{W.slot_name[k]}",
+            f"{slot_label(W, k)} differs from a freshly built copy (got {recs[j]['detail']['got']}, fresh "
+            f"{recs[j]['detail']['fresh']}) and the wiring model does not explain it")
+
+
+def minimise(W, ops, recs, j):
+    """Shorten a failing history: keep the last update before the problem, the evaluation of the same slot
+    before it (so that the cache is clean) and the failing operation; fall back to the prefix."""
+    if recs[j]["kind"] == "raise":
+        cand = [ops[j]]
+        r = run_history(W, cand)
+        if r and r[-1]["kind"] == "raise":
+            return cand
+        return ops[:j + 1]
+    k = ops[j]["slot"]
+    ups = [i for i in range(j) if ops[i]["op"] != "eval"]
+    for u in reversed(ups):
+        cand = [dict(op="eval", slot=k), ops[u], dict(op="eval", slot=k)]
+        if ops[u]["op"] == "reject":
+            continue
+        r = run_history(W, cand)
+        if len(r) == 3 and r[2]["kind"] == "eval" and r[2]["stale"]:
+            return cand
+    return ops[:j + 1]
+
+
+def one_step_histories(W, rng, real):
+    """For every updatable parameter object (every kind) and update mode: evaluate everything, update,
+    evaluate everything.  Exhaustive over (parameter, slot) pairs of the instance."""
+    evaluable = [k for k in range(len(W.slots)) if W.observable[k] and k not in W.unevaluable]
+    ev = [dict(op="eval", slot=k) for k in evaluable]
+    ups, _ = updatable(W)
+    hs = []
+    for i in ups:
+        modes = ["set"] + (["inplace"] if W.obj_kind[i] == "KLeaf" else [])
+        for m in modes:
+            hs.append(ev + [dict(op=m, obj=i, value=value_for(W, real, i, rng))] + ev)
+    return hs
+
+
+def check_history(W, gi, ops, rep, header_holder, pending, tag):
+    """Run on the implementation, queue the model run; returns the implementation records."""
+    recs = run_history(W, ops)
+    pending.append((W, gi, ops, recs, tag))
+    return recs
+
+
+def compare(W, ops, recs, mrecs):
+    """-> None | (index, text).  Exact on flags, re-executed _call sets and raises.  Staleness: the
+    implementation stale where the model says fresh is a disagreement; the converse is not (a value
+    restored by a rejection, a dependency that only reads a shape)."""
+    for j, (a, b) in enumerate(zip(recs, mrecs)):
+        if a["kind"] != b["kind"]:
+            return j, f"implementation {a['kind']} vs model {b['kind']}"
+        if a["kind"] == "raise":
+            return None
+        if a["flags"] != list(b["flags"]):
+            cached = [k for k in range(len(W.slots)) if W.slot_flag[k] is not None]
+            diff = [slot_label(W, cached[i]) + f"(impl {x}, model {y})"
+                    for i, (x, y) in enumerate(zip(a["flags"], b["flags"])) if x != y]
+            return j, "dirty flags differ: " + ", ".join(diff[:4])
+        if a["kind"] == "eval":
+            if a.get("exc"):
+                continue
+            if a["calls"] != b["calls"]:
+                return j, (f"re-executed _call set differs: impl {[W.obj_names[i] for i in a['calls']]} "
+                           f"model {[W.obj_names[i] for i in b['calls']]}")
+            if a["stale"] and not b["stale"]:
+                return j, "implementation returns a stale value where the model returns the fresh one"
+    if len(recs) != len(mrecs):
+        return min(len(recs), len(mrecs)), "histories stop at different operations"
+    return None
+
+
+def run(tier, seed, replay=None):
+    rep = C.Report(PID, tier, seed)
+    rep.trusted = C.COMMON_TRUSTED + [
+        "translator T7 (harness/translate/t7_handlers.py, python ast, own C3 linearisation; fail-closed; "
+        "cross-checked against the runtime MRO on every run)",
+        "hand-written model model/M_listen.v (cascade, assignment plans, evaluation through caches) tied by "
+        "exact correspondence on dirty flags, re-executed _call sets, raises and staleness",
+        "wiring extraction harness/props/c11.py: listener lists by introspection of `listeners`/`_listeners`, "
+        "read-dependencies by sys.setprofile tracing (completeness cross-checked by perturbing every leaf)",
+        "abstract values: a slot value is a free term over leaf version counters (a real function may "
+        "coincide on different inputs: the model is then pessimistic, never optimistic)"]
+    rep.assumptions = ["the set of slots a value reads does not depend on the parameter values (checked on the "
+                       "traced instances by the perturbation cross-check and by the re-executed-_call comparison)",
+                       "the listener graph is acyclic (else extraction fails closed)"]
+    rng = random.Random(seed)
+    torch = impl.load()
+    torch.manual_seed(seed)
+    t_start = time.time()
+
+    ok_sync, info = sync()
+    table = None
+    if ok_sync:
+        _, table, cls_names, flag_names = info
+
+    # ------------------------------------------------------------------ instances
+    Ws, errors = [], []
+    if ok_sync:
+        for f in SPECS:
+            sp = f()
+            try:
+                W, _ = extract(sp, table, cls_names, flag_names)
+                Ws.append(W)
+            except Exception as e:
+                errors.append((sp["name"], f"{type(e).__name__}: {e}"))
+    rep.timings["extract"] = round(time.time() - t_start, 2)
+    reals = [Real(W) for W in Ws]
+
+    # ------------------------------------------------------------------ direct search on the implementation
+    searched = {}
+
+    def search(budget=None):
+        """The property itself on the implementation: exhaustive one-step histories + random histories;
+        every value compared with a freshly built copy.  Needs only the extracted instances."""
+        if "done" in searched:
+            return searched["done"]
+        found = {}
+        r2 = random.Random(seed + 1)
+        for W, real in zip(Ws, reals):
+            hs = one_step_histories(W, r2, real)
+            nrand, ln = (6, 40) if tier == "quick" else (25, 400)
+            hs += [gen_history(W, r2, r2.randint(ln // 2, ln), real) for _ in range(nrand)]
+            for ops in hs:
+                recs = run_history(W, ops)
+                p = first_problem(W, ops, recs)
+                if p is None:
+                    continue
+                key, what = attribute(W, ops, recs, *p)
+                if key not in found:
+                    small = minimise(W, ops, recs, p[0])
+                    found[key] = (key, what, replay_dict(W, small))
+        searched["done"] = list(found.values())
+        return searched["done"]
+
+    if replay:
+        return run_replay(rep, Ws, replay)
+
+    if not ok_sync:
+        rep.proof = dict(obligations=1, discharged=0, axioms={}, theorems=["T7 translation"], ok=False)
+        rep.violation("C11:translator-failed", info, dict(error=info), False)
+        return rep.finish()
+    proved = C.handle_proof(rep, PID, search)
+    for name, e in errors:
+        rep.violation(f"C11:extraction-failed:{name}", f"wiring of instance {name} cannot be extracted: {e}",
+                      dict(spec=name, error=e), False)
+
+    bad, nrt = runtime_crosscheck(table)
+    for b in bad[:3]:
+        rep.violation("C11:translator-runtime-mismatch", b, dict(error=bad), False)
+
+    # ------------------------------------------------------------------ wired, by vm_compute
+    t0 = time.time()
+    d0s = [init_flags(W, r) for W, r in zip(Ws, reals)]
+    header = coq_header(Ws, d0s)
+    wired_res = []
+    try:
+        wired_res = C.run_cases(PID, header, [f"(zb (wired g{i}) :: diag g{i})" for i in range(len(Ws))],
+                                shard=1, rtype="Z")
+    except RuntimeError as e:
+        if proved:
+            rep.violation("C11:model-eval-failed", str(e)[:300], dict(error=str(e)[-2000:]), False)
+    rep.timings["wired"] = round(time.time() - t0, 2)
+    wired_by_spec, class_verdict, offenders = {}, {}, []
+    for W, z in zip(Ws, wired_res):
+        w, dg = bool(z[0]), decode_diag(W, z[1:])
+        wired_by_spec[W.spec["name"]] = w
+        if w != (not dg):
+            rep.violation("C11:wired-diag-inconsistent", f"{W.spec['name']}: wired={w} but diag={dg[:3]}",
+                          dict(spec=W.spec["name"]), False)
+        culprits = set()
+        for d in dg:
+            if d["kind"] == "uncovered":
+                key, m, dep = root_cause(W, d["leaf"], d["slot"])
+                offenders.append((W, "stale", key, d["leaf"], m, dep))
+                culprits.add(key.split(".")[0].split(":")[0])
+            elif d["kind"] == "raise":
+                ent = W.table[W.obj_class[d["who"]]]
+                e = "EvP" if any(s[0] == "HRaise" for s in ent["hp"]) else "EvM"
+                offenders.append((W, "raise", f"{short(W.obj_class[d['who']])}.{hname(e)}:raises", d["obj"], None, None))
+                culprits.add(short(W.obj_class[d["who"]]))
+            else:
+                rep.violation(f"C11:wiring:{d['kind']}:{W.spec['name']}", f"{W.spec['name']}: {d}",
+                              dict(spec=W.spec["name"], diag=d), False)
+        for c in {short(q) for q in W.obj_class}:
+            class_verdict[c] = class_verdict.get(c, True) and c not in culprits
+
+    # ------------------------------------------------------------------ each offending edge -> a concrete history on the real code
+    t0 = time.time()
+    reproduced, unreproduced = {}, []
+    for W, kind, key, leaf, m, dep in offenders:
+        full = f"C11:{key}"
+        if full in reproduced:
+            continue
+        real = reals[Ws.index(W)]
+        if W.obj_names[leaf] not in W.leaf_ids:
+            continue                       # anonymous constant, not reachable through the registry
+        upd = dict(op="set", obj=leaf, value=value_for(W, real, leaf, rng))
+        if kind == "raise":
+            ops = [upd]
+            recs = run_history(W, ops)
+            if recs and recs[-1]["kind"] == "raise":
+                k2, what = attribute(W, ops, recs, len(recs) - 1, "raise")
+                reproduced[full] = (full, what, replay_dict(W, ops))
+            else:
+                unreproduced.append((full, W.spec["name"], "update does not raise on the implementation"))
+            continue
+        if m in W.unevaluable or not W.observable[m]:
+            # the stale value cannot be observed on this tree (its _call raises for another reason): show
+            # that the change notification is dropped — a listener of the object is not told
+            hits = notification_probe(W, [upd], W.slot_owner[m])
+            ctrl = None
+            if hits == 0:
+                reproduced[full] = (
+                    full, f"changing '{W.obj_names[leaf]}' is not propagated by {key.split(':')[0]}: "
+                          f"{slot_label(W, m)} keeps lp_needs_update as it was and a listener registered on "
+                          f"'{W.obj_names[W.slot_owner[m]]}' receives no notification (the stale value itself is "
+                          f"masked on this tree because {slot_label(W, m)} cannot be evaluated: "
+                          f"{next((w for n_, s_, w in W.dropped if n_ == W.obj_names[W.slot_owner[m]]), '')})",
+                    replay_dict(W, [upd], probe=W.obj_names[W.slot_owner[m]]))
+            else:
+                unreproduced.append((full, W.spec["name"], f"probe received {hits} notifications"))
+            continue
+        ops = [dict(op="eval", slot=m), upd, dict(op="eval", slot=m)]
+        recs = run_history(W, ops)
+        if len(recs) == 3 and recs[2]["kind"] == "eval" and recs[2]["stale"]:
+            _, what = attribute(W, ops, recs, 2, "stale")
+            reproduced[full] = (full, what, replay_dict(W, ops))
+        else:
+            unreproduced.append((full, W.spec["name"], f"{slot_label(W, m)} not stale on the implementation "
+                                                       f"(read of '{W.obj_names[leaf]}' does not influence the value)"))
+    for f in reproduced.values():
+        rep.violation(*f)
+    rep.timings["replay_offenders"] = round(time.time() - t0, 2)
+
+    # ------------------------------------------------------------------ read-tracing completeness: perturb every leaf
+    t0 = time.time()
+    pert_checked = pert_changed = 0
+    for W, real in zip(Ws, reals):
+        evaluable = [k for k in range(len(W.slots)) if W.observable[k] and k not in W.unevaluable]
+        base_copy = Real(W)
+        base_vals = {k: base_copy.observe(k) for k in evaluable}
+        for l in [i for i in range(len(W.obj_ids)) if W.obj_kind[i] == "KLeaf" and W.obj_names[i] in W.leaf_ids]:
+            vals = dict(base_copy.leaf_values())
+            vals[W.obj_names[l]] = value_for(W, real, l, rng)
+            other = Real(W, vals)
+            pslot = next(s for s in range(len(W.slots)) if W.slot_owner[s] == l and W.slot_name[s] == "leaf")
+            for k in evaluable:
+                pert_checked += 1
+                if not same_value(other.observe(k), base_vals[k], torch):
+                    pert_changed += 1
+                    if pslot not in reads_set(W, k):
+                        rep.violation(f"C11:trace-incomplete:{short(W.obj_class[W.slot_owner[k]])}.{W.slot_name[k]}",
+                                      f"{W.spec['name']}: {slot_label(W, k)} changes with '{W.obj_names[l]}' but no "
+                                      f"read was traced", dict(spec=W.spec["name"], leaf=W.obj_names[l]), False)
+    rep.timings["perturbation"] = round(time.time() - t0, 2)
+
+    # ------------------------------------------------------------------ the property on the implementation + correspondence
+    t0 = time.time()
+    for f in search():
+        rep.violation(*f)
+    rep.timings["direct_search"] = round(time.time() - t0, 2)
+
+    t0 = time.time()
+    nhist, ln = (8, 40) if tier == "quick" else (40, 400)
+    jobs = []
+    for gi, (W, real) in enumerate(zip(Ws, reals)):
+        hs = one_step_histories(W, rng, real)
+        if tier == "quick":
+            hs = hs[::2]
+        hs += [gen_history(W, rng, rng.randint(max(4, ln // 4), ln), real) for _ in range(nhist)]
+        for ops in hs:
+            jobs.append((gi, ops, run_history(W, ops)))
+    rep.timings["impl_histories"] = round(time.time() - t0, 2)
+    t0 = time.time()
+    mres = []
+    try:
+        exprs = [f"trace g{gi} (init g{gi} d{gi}) [{'; '.join(model_op(Ws[gi], o) for o in ops)}]%nat"
+                 for gi, ops, _ in jobs]
+        mres = C.run_cases(PID, header, exprs, shard=max(4, len(exprs) // 16 + 1), rtype="Z")
+    except RuntimeError as e:
+        if proved:
+            rep.violation("C11:model-eval-failed", str(e)[:300], dict(error=str(e)[-2000:]), False)
+    rep.timings["model_eval"] = round(time.time() - t0, 2)
+    opdist, pess, nstale, nraise, mism = {}, 0, 0, 0, 0
+    for (gi, ops, recs), z in zip(jobs, mres):
+        W = Ws[gi]
+        mrecs = parse_trace(W, ops, z)
+        kinds = {o["op"] for o in ops}
+        touched = {o.get("obj") for o in ops if o["op"] != "eval"}
+        for o in ops:
+            opdist[o["op"]] = opdist.get(o["op"], 0) + 1
+        nstale += sum(1 for r in recs if r.get("stale"))
+        nraise += sum(1 for r in recs if r["kind"] == "raise")
+        pess += sum(1 for a, b in zip(recs, mrecs) if a["kind"] == "eval" and b["kind"] == "eval"
+                    and b["stale"] and not a["stale"])
+        rep.case(dict(spec=W.spec["name"], ops=[model_op(W, o) for o in ops]),
+                 nontrivial=len(touched) >= 2 and "eval" in kinds,
+                 sample=dict(spec=W.spec["name"], history=describe_ops(W, ops)[:12], length=len(ops)))
+        d = compare(W, ops, recs, mrecs)
+        if d is not None and mism < 3:
+            mism += 1
+            j, text = d
+            fs = search()
+            hit = False
+            p = first_problem(W, ops, recs)
+            if p is not None and p[0] <= j:
+                key, what = attribute(W, ops, recs, *p)
+                rep.violation(key, what, replay_dict(W, minimise(W, ops, recs, p[0])))
+                hit = True
+            if not hit:
+                rep.violation(f"C11:model-impl-differ:{W.spec['name']}",
+                              f"{W.spec['name']} op {j} ({describe_ops(W, ops[j:j + 1])}): {text}",
+                              replay_dict(W, ops[:j + 1], broken="correspondence M_listen.trace vs implementation",
+                                          detail=text), False)
+
+    classes = sorted({short(q) for W in Ws for q in W.obj_class})
+    rep.rule = ("per instance graph: for every updatable parameter object (plain, view, concatenation, transformed) "
+                "and mode (assignment, in-place + notification) the history [evaluate every slot; update; evaluate "
+                f"every slot], plus random histories of length <= {ln} mixing assignment through every parameter "
+                "kind, draws by distributions, proposals/rejections, in-place steps + notification, bare "
+                "notifications and evaluations of random slots; every evaluation compared with a freshly built "
+                "copy (rtol 1e-9); non-trivial = updates touch >= 2 different parameters and at least one "
+                "evaluation; distinct = distinct (instance, abstract operation sequence)")
+    rep.extra = dict(
+        input_distribution=opdist, traces_validated_against_impl=len(mres), model_undefined=0,
+        model_pessimistic_evaluations=pess, stale_evaluations_on_impl=nstale, raising_updates_on_impl=nraise,
+        translator_units=[f"{len(table)} classes -> gen/G_handlers.v (handlers, tensor setters, cache flags, "
+                          "listener attribute, fire_* loops)"],
+        runtime_crosschecked_classes=nrt,
+        instances={W.spec["name"]: dict(objects=len(W.obj_ids), slots=len(W.slots),
+                                        cached=sum(1 for f in W.slot_flag if f is not None),
+                                        wired=wired_by_spec.get(W.spec["name"]),
+                                        not_evaluable=[f"{n}.{s}: {w}" for n, s, w in W.dropped])
+                   for W in Ws},
+        classes_instantiated=classes, n_classes=len(classes),
+        classes_not_wired=sorted(c for c, v in class_verdict.items() if not v),
+        offending_edges_not_reproduced=unreproduced,
+        perturbation=dict(pairs_checked=pert_checked, pairs_changed=pert_changed),
+        not_instantiable=["EmpiricalSubstitutionModel/LG/WAG and RootParameter (abstract: cannot be constructed)",
+                          "nn-based classes (Module, ModuleParameter, NormalizingFlow, RealNVP), variational "
+                          "objectives (ELBO, KLpq, VR, CUBO: sampling inside _call), Hamiltonian/HMCOperator"])
+    return rep.finish()
+
+
+def run_replay(rep, Ws, path):
+    blob = json.load(open(path))
+    r = blob["replay"]
+    W = next((w for w in Ws if w.spec["name"] == r.get("spec")), None)
+    if W is None or "history" not in r:
+        C.log(f"[{PID}] replay file has no executable history: {r}")
+        rep.violation(blob["key"], blob["what"], r, False)
+        return rep.finish()
+    ops = import_ops(W, r["history"])
+    C.log(f"[{PID}] replaying on {W.spec['name']}: {describe_ops(W, ops)}")
+    if "probe" in r:
+        tgt = W.obj_names.index(r["probe"])
+        hits = notification_probe(W, ops, tgt)
+        C.log(f"[{PID}] probe listener on {r['probe']} received {hits} notifications")
+        if hits == 0:
+            rep.violation(blob["key"], blob["what"], r)
+        return rep.finish()
+    recs = run_history(W, ops)
+    for o, rec in zip(describe_ops(W, ops), recs):
+        C.log(f"   {o}: " + (f"raises {rec['exc']}: {rec.get('msg')}" if rec["kind"] == "raise" else
+                             (f"stale={rec['stale']} {rec['detail'] or ''}" if rec["kind"] == "eval" else "ok")))
+    p = first_problem(W, ops, recs)
+    if p is not None:
+        key, what = attribute(W, ops, recs, *p)
+        rep.violation(key, what, r)
+    return rep.finish()
